@@ -4,9 +4,9 @@ package main
 
 import (
 	"fmt"
+	"go/types"
 	"os"
 	"runtime/debug"
-	"go/types"
 	"sort"
 	"strings"
 
@@ -152,44 +152,44 @@ type DeferredCall struct {
 }
 
 type Frame struct {
-	fn       *ssa.Function
-	regs     map[ssa.Value]Val
-	names    map[string]*Cell // source-named cells (params, locals, named results)
-	params   []Val
-	bindings []Val // free var values (pointers to cells)
-	defers   []DeferredCall
-	depth    int
-	contract *Contract
-	lets     map[string]Val // ghost bindings from site rules
-	loopSeen map[*ssa.BasicBlock]bool
-	parent   *Frame
-	entry    *State // state at entry (for old())
-	iterMap  map[ssa.Value]Val // range iterators -> map value
-	out      func(Outcome)
-	joins    []*joinPoint
-	heapNames map[string]*Loc
+	fn         *ssa.Function
+	regs       map[ssa.Value]Val
+	names      map[string]*Cell // source-named cells (params, locals, named results)
+	params     []Val
+	bindings   []Val // free var values (pointers to cells)
+	defers     []DeferredCall
+	depth      int
+	contract   *Contract
+	lets       map[string]Val // ghost bindings from site rules
+	loopSeen   map[*ssa.BasicBlock]bool
+	parent     *Frame
+	entry      *State            // state at entry (for old())
+	iterMap    map[ssa.Value]Val // range iterators -> map value
+	out        func(Outcome)
+	joins      []*joinPoint
+	heapNames  map[string]*Loc
 	heapAllocs map[*ssa.Alloc]*Loc
-	allocs   map[*ssa.Alloc]*Cell
+	allocs     map[*ssa.Alloc]*Cell
 }
 
 type State struct {
-	pc      *pcNode
-	cells   map[*Cell]Val
-	heap    map[string]string // heap array name -> current term
-	locks   []string          // held lock keys, acquisition order
-	lockCls []string          // parallel: lock class
-	ghost   map[string]string // ghost counters / variables
-	sort    map[string]string // ghost var sorts
-	closedC map[string]string // not used directly (closed is a heap array)
-	panicking bool
-	panicVal  Val
-	recovered bool
-	spawned   bool // a goroutine has been started on this path
-	heapRef map[string]*Refine // refinements of heap-stored single-leaf values: key = loc key
-	dead    bool
-	defers  map[*Frame][]DeferredCall
-	lets    map[string]Val
-	loopLocks map[string]string
+	pc         *pcNode
+	cells      map[*Cell]Val
+	heap       map[string]string // heap array name -> current term
+	locks      []string          // held lock keys, acquisition order
+	lockCls    []string          // parallel: lock class
+	ghost      map[string]string // ghost counters / variables
+	sort       map[string]string // ghost var sorts
+	closedC    map[string]string // not used directly (closed is a heap array)
+	panicking  bool
+	panicVal   Val
+	recovered  bool
+	spawned    bool               // a goroutine has been started on this path
+	heapRef    map[string]*Refine // refinements of heap-stored single-leaf values: key = loc key
+	dead       bool
+	defers     map[*Frame][]DeferredCall
+	lets       map[string]Val
+	loopLocks  map[string]string
 	freshChans []string
 }
 
